@@ -292,6 +292,11 @@ pub fn run_c16(seed: u64, run: u64, stats: &mut Stats) -> Vec<Violation> {
             }
         }
         Family::Build => {
+            // now and then the largest payload the stacking can encode
+            let size = if cfg.chance(1, 150) { 4 } else { size };
+            if size == 4 {
+                stats.inc("c16.values.build.maximum_payload");
+            }
             let bseed = vseed;
             let spec = bspec_of(bseed, size);
             let mk = |sink: Sink| Case::Build { bseed, size, sink };
